@@ -20,8 +20,16 @@ def make_event(case):
         return {"typ": "rotate", "h": {"n": 0}, "root": 0, "node": case["node"], "h2": {"n": 0}, "ret_self": False, "exc": "constructing the tree raised " + type(e).__name__, "grew": False}
     objs = project.ObjTable()
     project.absorb(objs, [root])
-    h = project.snapshot(objs, payload=False)
     node = objs.obj(case["node"])
+    if case.get("first"):
+        # a rotation of another node first: the tree the judged rotation starts from is one that only a rotation produces
+        # (a one-operand node whose operand sits on its other side, a former root below its former child)
+        try:
+            objs.obj(case["first"]).rotate()
+        except BaseException:  # noqa  (judged by the single-rotation case of that node)
+            pass
+        root = node.get_root()
+    h = project.snapshot(objs, payload=False)
     try:
         ret = node.rotate()
         ret_self = ret is node
@@ -45,6 +53,12 @@ def domain(ctx):
             # nothing but object identity distinguishes the nodes (equal ids, equal constants, equal kinds)
             cases.append({"shape": s, "node": i, "cls": "uniform"})
             cases.append({"shape": s, "node": i, "cls": "btn_sameid"})
+    # two rotations in a row on one tree: every (first, second) pair of nodes
+    for s in shapes.shapes_upto(4 if ctx.quick else 5):
+        for i in range(1, shapes.size(s) + 1):
+            for j in range(1, shapes.size(s) + 1):
+                for cls in ("expr", "btn"):
+                    cases.append({"shape": s, "node": j, "cls": cls, "first": i})
     # deep chains: rotation must not depend on how far below the root the node sits
     def chain(n, side):
         s = None
